@@ -161,6 +161,7 @@ def translate_func(fn):
     ops = []
     returned = False
     newline = False
+    counts_nl = False
     for st in body:
         if isinstance(st, ast.Return):
             if isinstance(st.value, ast.Name) and st.value.id == 't':
@@ -175,6 +176,10 @@ def translate_func(fn):
                 and isinstance(st.value.func, ast.Name) and st.value.func.id == 'len' \
                 and is_tvalue(st.value.args[0]):
             newline = True
+            continue
+        if isinstance(st, ast.AugAssign) and isinstance(st.op, ast.Add) and ast.unparse(st.target) == 'self.lineno' \
+                and ast.unparse(st.value) in ("t.value.count('\\n')", 't.value.count("\\n")') and not ops:
+            counts_nl = True        # executed before any rewriting of t.value
             continue
         if isinstance(st, ast.If):
             cases = []
@@ -206,12 +211,15 @@ def translate_func(fn):
             continue
         raise TranslateError('unsupported statement in a token function: ' + ast.dump(st)[:200])
     if newline:
-        if returned or ops:
+        if returned or ops or counts_nl:
             raise TranslateError('newline function does more than count lines')
         return 'ANewline'
     if not returned:
+        if counts_nl and not ops:
+            return 'AIgnore+nl'          # a function that only counts lines and returns None: usable for ignore_ rules
         raise TranslateError('token function does not return t')
-    return 'ATok' if not ops else 'ARewrite [' + '; '.join(ops) + ']'
+    act = 'ATok' if not ops else 'ARewrite [' + '; '.join(ops) + ']'
+    return act + ('+nl' if counts_nl else '')
 
 
 def dump(dialect):
@@ -243,7 +251,7 @@ def dump(dialect):
             tnum = IGN_BASE + ign_n
             if name in L._token_funcs:
                 act = translate_func(L._token_funcs[name])
-                if act != 'ANewline':
+                if act not in ('ANewline', 'AIgnore+nl'):
                     raise TranslateError(f'ignored rule {name} has an unsupported function')
             else:
                 act = 'AIgnore'
@@ -252,8 +260,8 @@ def dump(dialect):
                 raise TranslateError(f'token {name} is not a terminal of the grammar')
             tnum = num[name]
             act = translate_func(L._token_funcs[name]) if name in L._token_funcs else 'ATok'
-            if act == 'ANewline':
-                raise TranslateError(f'{name}: newline action on a non-ignored token')
+            if act in ('ANewline', 'AIgnore+nl'):
+                raise TranslateError(f'{name}: newline-only action on a non-ignored token')
         rules.append((name, tnum, emit_re(sub), act))
     return dict(dialect=dialect, rules=rules, ignore=L.ignore)
 
@@ -267,7 +275,7 @@ def emit(dialect):
            'Import ListNotations.', 'Local Open Scope N_scope.',
            'Definition rules : list rule := [']
     out.append(';\n'.join(f' mkRule {tnum}%positive ({r}) ({act})  (* {name} *)' if False else
-                          f' (* {name} *) mkRule {tnum}%positive ({r}) ({act})' for name, tnum, r, act in d['rules']))
+                          f' (* {name} *) mkRule {tnum}%positive ({r}) ({act.replace("+nl", "")}) {"true" if act.endswith("+nl") else "false"}' for name, tnum, r, act in d['rules']))
     out.append('].')
     out.append(f'Definition ignore : list N := {nlist(d["ignore"])}.')
     out.append('Definition lexer (s : str) : lexres := lex U rules ignore s.')
